@@ -288,8 +288,8 @@ fn slicing_body(mode: u8) {
             i += 1;
         }
         SCRIPT_POS = 0;
-        // the maximum-speed loop re-enters the frame loop after every frame: 3 instructions keep it affordable
-        SCRIPT_LIMIT = if mode == 2 { 3 } else { 4 };
+        // the maximum-speed loop re-enters the frame loop after every frame: with 3 instructions the query needed > 20 GB, 2 are kept
+        SCRIPT_LIMIT = if mode == 2 { 2 } else { 4 };
     }
     let limit = Duration::from_millis(kani::any::<u16>() as u64);
     let mut frames_seen = 0usize;
